@@ -37,6 +37,21 @@ CHECKS = {
          "For every cost letter (each of the 35 known opcodes as a valid stand-alone group, all 512 two-byte opcodes over the 256 cost slots x high byte {01,ff}, 3 unknown shapes, SOFTFORK with 3 arguments) x repetition 1..2 (quick) / 1..3 (thorough) x COST_CONDITIONS on/off x 1-2 spends, the cost reported by parse_spends, run_block_generator, run_block_generator2 (byte cost and INTERNED_GENERATOR) and run_spendbundle (both) must equal harness size cost + clvmr's own execution cost + the literal cost table, with consistent bundle-wide and per-spend sub-totals; each path is re-run with the limit at 0, total-1, total, total+1 and every partial sum of its charge sequence +-1 and must succeed exactly for limits >= total with an unchanged cost.",
          "trusts: the literal cost table and 256-slot table in mc::refcond (self-checked against the exact closed form 100*(17/16)^i), clvmr::run_program for execution cost, harness serialiser/interning count for size cost",
          "DESIGN.md#c04"),
+ "C02": ("E", "exploration",
+         "bounded-exhaustive sweep of bundles with amounts near 2^64 through all entry points with an invariant monitor on every accepted result",
+         "Every bundle of 1-3 spends with coin amounts in {0,1,2^63,2^64-1}, output multisets over 2 puzzle hashes x the same amounts (<=3 / <=2+1(2) / <=1 each) and RESERVE_FEE in {absent,0,1,2^64-1} (215k quick, ~1M thorough) is run through parse_spends (both visitors), run_block_generator, run_block_generator2, run_spendbundle and validate_clvm_and_signature; acceptance must equal the u128 arithmetic of the case, and on every accepted result the monitor recomputes from the listed spends and outputs: additions+fee<=removals, reported totals = sums, coin ids distinct and = SHA-256(parent|ph|minimal amount), no duplicate (ph,amount) per spend, puzzle hash = own tree hash of the revealed puzzle. Plus 300/6000 spends of 2^64-1 and a spend with 4000 outputs.",
+         "trusts: harness u128 arithmetic, harness tree hash and integer codec (mc::sx), sha2 crate",
+         "DESIGN.md#c02"),
+ "C06": ("E", "exploration",
+         "bounded-exhaustive metamorphic enumeration: strict-vs-lenient flag subsets and all permutations of spends and conditions, both sides being the real validator",
+         "For every bundle of the stated alphabet (spend A with every multiset of <=2 of ~125 interaction and strict-sensitive letters, two-spend bundles with a child/sibling carrying one letter each; thorough adds triples over the aggregating letters) and 4 fork flag sets x all 7 non-empty subsets of {NO_UNKNOWN_CONDS, STRICT_ARGS_COUNT, LIMIT_SPENDS}: accepted under the stricter set implies accepted under the fork flags alone with identical summary and cost; and for every permutation of conditions within each spend x every permutation of the spends under 4 flag sets: identical verdict, cost and order-insensitive summary (FF flag masked). LIMIT_SPENDS at 5999/6000/6001 spends.",
+         "trusts: nothing but the comparison code (no reference model: both sides are parse_spends); conditions that interact only in groups of 3+ outside the thorough triples are not covered",
+         "DESIGN.md#c06"),
+ "C16": ("E", "exploration",
+         "bounded-exhaustive input enumeration against an independent big-integer model of BLS12-381 plus two-route (secret vs public) agreement",
+         "For 24 (quick) / 72 (thorough) keys incl. boundary scalars 0,1,2,3,r-1,r-2,(r+-1)/2, every unhardened path of length <=2/<=3 over 6 boundary indices, every ordered key pair, up to 16 hidden puzzle hashes, 6 messages and ~130k (quick) / ~360k (thorough) systematically perturbed 48/96-byte strings (every single-byte substitution of valid encodings, all flag combinations, non-reduced coordinates, non-canonical infinities, small-x on-curve non-subgroup points) plus 105k secret-key and mod-r strings: the real parsers accept exactly what the harness's own num-bigint model says (canonical encoding, on curve, r*P=O, infinity allowed), unchecked parsing accepts a superset and re-encodes identically, and both derivation routes agree with each other and with reference values.",
+         "trusts: harness reference arithmetic (Fp/Fp2, Jacobian double-and-add, ZCash compressed format) re-validated at start-up on the blspy vectors quoted in the repo's unit tests; sha2 crate; blst scalar multiplication only as a cross-check",
+         "DESIGN.md#c16"),
 }
 
 PENDING_REASON = "check not built yet in this round (planned: see DESIGN.md section for this property); not claimed until it runs"
